@@ -145,6 +145,14 @@ impl Dictionary for MutableDictionary {
         let misspelled_charslice = word.normalized();
         let misspelled_charslice_lower = misspelled_charslice.to_lower();
 
+        // Edit distances are computed in `u8`s. Nothing of this length is a misspelling of a
+        // word anyway.
+        if misspelled_charslice.len() > u8::MAX as usize
+            || misspelled_charslice_lower.len() > u8::MAX as usize
+        {
+            return Vec::new();
+        }
+
         let shortest_word_len = if misspelled_charslice.len() <= max_distance as usize {
             1
         } else {
@@ -155,7 +163,8 @@ impl Dictionary for MutableDictionary {
         // Get candidate words
         let words_to_search = self
             .words_iter()
-            .filter(|word| (shortest_word_len..=longest_word_len).contains(&word.len()));
+            .filter(|word| (shortest_word_len..=longest_word_len).contains(&word.len()))
+            .filter(|word| word.len() <= u8::MAX as usize);
 
         // Pre-allocated vectors for the edit-distance calculation
         // 53 is the length of the longest word.
